@@ -154,6 +154,11 @@ pub fn c07_resolver(text: &str, style: ScalarStyle, tag: &TagT) -> M {
     if tag.is_none() && style != ScalarStyle::Plain {
         return M::Str(text.to_string());
     }
+    // an untagged plain scalar that matches none of the core schema's regular expressions (the
+    // hand-written matcher of oracle/core.rs) is a string, whatever the library's resolver says
+    if tag.is_none() && crate::oracle::core::classify(text) == crate::oracle::core::Core::Str {
+        return M::Str(text.to_string());
+    }
     lib_resolver(text, style, tag)
 }
 
